@@ -192,10 +192,10 @@ def e2e_judge(case):
         fname = (file_payload or "s") + ".css"
         default_bg = None if bg_payload is None else "rgb(255, 255, 255)" + bg_payload
 
-        def run(selector, fname, default_bg):
+        def run(selector, fname, default_bg, badvalue=None):
             with Scratch("c19e_") as sc:
                 with open(os.path.join(sc.path, fname), "w", encoding="utf-8") as f:
-                    f.write(selector + " { color: #777777 }\n.second { color: #888888; background-color: #ffffff }\n")
+                    f.write(selector + " { color: #777777 }\n.second { color: #888888; background-color: #ffffff }\n.bad { color: " + (badvalue or "inherit") + " }\n")
                 args = [fname] + (["--default-bg", default_bg] if default_bg is not None else [])
                 res = CliRunner().invoke(cli_main, args)
                 rp = os.path.join(sc.path, "cm_colors_report.html")
@@ -203,7 +203,7 @@ def e2e_judge(case):
                     return None, res.output
                 return open(rp, encoding="utf-8").read(), res.output
 
-        doc, out = run(selector, fname, default_bg)
+        doc, out = run(selector, fname, default_bg, case.get("bad"))
         ref, _ = run('a[title="benign"]', "s.css", None if default_bg is None else "rgb(255, 255, 255)")
         if ref is None:
             raise HarnessError("benign CLI run produced no report")
@@ -217,7 +217,7 @@ def e2e_judge(case):
             bgs = (default_bg if default_bg is not None else "white") if sel == selector else "#ffffff"
             exp.append({"selector": sel, "file": fname, "codes": c["codes"], "styles": [f"background-color: {bgs}; color: {c['codes'][0]};", f"background-color: {bgs}; color: {c['codes'][1]};"]})
         _compare(doc, ref, exp, f"CLI with selector {selector!r}, file {fname!r}, default-bg {default_bg!r}")
-        allp = [sel_payload, file_payload or "", bg_payload or ""]
+        allp = [sel_payload, file_payload or "", bg_payload or "", case.get("bad") or ""]
     else:
         from cm_colors import ColorPair, make_readable_bulk
 
@@ -260,7 +260,12 @@ def e2e_strategy(draw):
         bg = draw(st.one_of(st.none(), payloads(max_parts=4, extra_exclude="0123456789\n\r\t")))
         if bg is not None and bg.startswith("-"):
             bg = " " + bg
-        return {"kind": "cli", "selector": sel, "file": fn, "bg": bg}
+        # an INVALID colour value that carries markup (it is listed as needing attention; whatever the report says about it
+        # must be escaped): restricted to what a declaration value can hold
+        bad = draw(st.one_of(st.none(), payloads(max_parts=4, extra_exclude="\"'(){};\\\n\r\t\f!")))
+        if bad is not None and not bad.strip():
+            bad = None
+        return {"kind": "cli", "selector": sel, "file": fn, "bg": bg, "bad": bad}
     t = draw(payloads(max_parts=4, extra_exclude="0123456789"))
     b = draw(payloads(max_parts=4, extra_exclude="0123456789"))
     return {"kind": "bulk", "text": t, "bgp": b}
